@@ -138,7 +138,10 @@ def run(ctx):
             if via_ems:
                 r = attempt(lambda: ds.ems.normalize_depth_variables(positive_down=pd, deep_to_shallow=dts))
             else:
-                r = attempt(lambda: depth_ops.normalize_depth_variables(ds, names, positive_down=pd, deep_to_shallow=dts))
+                # the coordinates are documented as an iterable: a list, a tuple, a generator, an iterator
+                arg = [names, tuple(names), (nm for nm in names), iter(names), (ds[nm] for nm in names)][(len(lit) + (pd is True) + 2 * (dts is True)) % 5]
+                ctx.count(f'depth coordinates given as:{type(arg).__name__}')
+                r = attempt(lambda: depth_ops.normalize_depth_variables(ds, arg, positive_down=pd, deep_to_shallow=dts))
         if r[0] != 'ok':
             ctx.case((lit, pd, dts), False)
             ctx.report('property', f'normalize_depth_variables failed: {r[1]}', case)
